@@ -62,7 +62,7 @@ PROBES = ['split_inside_crlf', 'split_inside_multibyte', 'eintr_retried', 'exoti
           'yielded_prefix_nonempty', 'interleaved_iterators']
 
 CONTAINERS = ['lines', 'lines_lf', 'lines_keep', 'gen', 'tuple', 'stringio', 'simfile', 'simfile_raw', 'simtext',
-              'simpath', 'simpath_enc', 'realfile', 'iterparse_lines', 'iterparse_simfile']
+              'simpath', 'simpath_enc', 'simpath_pathlib', 'realfile', 'iterparse_lines', 'iterparse_simfile']
 CHUNK_CHOICES = [[1], [2], [3], [7], [64], [4096], [1, 2, 3], [5, 1], [1, 64]]
 BUF_CHOICES = [1, 2, 3, 8, 16, 64, 8192]
 TCHUNK_CHOICES = [1, 2, 5, 16, 64, 8192]
@@ -372,6 +372,10 @@ def run_container(cname, trace, T, data, enc, model, fs, rp, compare, Rtc, res):
             return
         with _Patched(fs):
             got, exc = _call(lambda: penman.load('/sim/in.penman', model=model))
+    elif cname == 'simpath_pathlib':
+        import pathlib
+        with _Patched(fs):
+            got, exc = _call(lambda: penman.load(pathlib.Path('/sim/in.penman'), model=model, encoding=enc))
     elif cname == 'simpath_enc':
         with _Patched(fs):
             got, exc = _call(lambda: penman.load('/sim/in.penman', model=model, encoding=enc))
@@ -522,6 +526,14 @@ def roundtrips(trace, R, model, fs, k, res):
         res.violate('roundtrip', 'dump-raised', via='path', error=digest.canon_exc(exc))
         return
     b2 = fs.durable('/sim/out2.penman')
+    import pathlib
+    fs.plans['/sim/out3.penman'] = wp
+    with _Patched(fs):
+        _, exc = _call(lambda: penman.dump(R, pathlib.Path('/sim/out3.penman'), model=model, indent=indent,
+                                           compact=compact))
+    if exc or fs.durable('/sim/out3.penman') != b2:
+        res.violate('roundtrip', 'dump-to-pathlib-path-differs', error=digest.canon_exc(exc) if exc else None)
+        return
     if 'w' not in [m for p, m in fs.opened if p == '/sim/out2.penman']:
         res.violate('roundtrip', 'dump-path-not-opened-for-writing', opened=fs.opened)
     res.event('dump_bytes', digest.sha(b1.hex()), digest.sha(b2.hex()))
